@@ -4,7 +4,7 @@
    the source (GenConstants); the adversary is any sequence of events (message arrivals, the two timers, time moving up to
    the next armed deadline), i.e. every arrival schedule. *)
 From Coq Require Import ZArith List Bool.
-From Verif Require Import Generated.GenConstants Model.Keepalive Proofs.KeepaliveProofs.
+From Verif Require Import Generated.GenConstants Model.Keepalive Proofs.KeepaliveProofs Proofs.Product.
 Import ListNotations.
 Open Scope Z_scope.
 
@@ -50,3 +50,52 @@ Example C10_ratio : (KEEP_ALIVE_RATIO_NUM, KEEP_ALIVE_RATIO_DEN) = (9, 2). Proof
 (* K = 10 (h = 5): messages at 3, 10, 19 then silence: no ping at 10 or 20 (traffic in both intervals), pings from 30 on, dead at 30 + 45 = 75 *)
 Example C10_demo : ka_sim 200 5 (ka_init 5) [3; 10; 19] 200 = [KPingSent 30; KPingSent 40; KPingSent 50; KPingSent 60; KPingSent 70; KDead 75].
 Proof. vm_compute. reflexivity. Qed.
+
+(* ---------------------------------------------------------------- several sessions in one process *)
+(* Two keep-alive schedules side by side (same K or not, established at different times) are the interleaving product of two
+   machines (Proofs/Product.v): each one's pings and death are those of its own run on its own events, so the theorems above
+   hold for each session whatever its neighbour does. That the CODE keeps no keep-alive state outside the connection is what
+   the neighbour-session schedules of checks/c10.py test. *)
+Definition ka_pair_run (h1 h2 : Z) :=
+  prun ka ka kev kev (list kobs) (list kobs) (ka_step h1) (ka_step h2).
+
+Lemma ka_run_is_runA : forall h es s,
+  ka_run h s es = option_map (fun r => (fst r, concat (snd r))) (runA ka kev (list kobs) (ka_step h) s es).
+Proof.
+  induction es as [|e r IH]; intro s; cbn; [reflexivity|].
+  destruct (ka_step h s e) as [[s1 o]|]; [|reflexivity]. rewrite IH.
+  destruct (runA ka kev (list kobs) (ka_step h) s1 r) as [[s2 os]|]; reflexivity.
+Qed.
+
+Lemma ka_run_is_runB : forall h es s,
+  ka_run h s es = option_map (fun r => (fst r, concat (snd r))) (runB ka kev (list kobs) (ka_step h) s es).
+Proof.
+  induction es as [|e r IH]; intro s; cbn; [reflexivity|].
+  destruct (ka_step h s e) as [[s1 o]|]; [|reflexivity]. rewrite IH.
+  destruct (runB ka kev (list kobs) (ka_step h) s1 r) as [[s2 os]|]; reflexivity.
+Qed.
+
+Theorem C10_neighbour_sessions_independent : forall h1 h2 es a b a' b' os,
+  ka_pair_run h1 h2 (a, b) es = Some ((a', b'), os) ->
+  ka_run h1 a (labelsA kev kev es) = Some (a', concat (obsA (list kobs) (list kobs) os)) /\
+  ka_run h2 b (labelsB kev kev es) = Some (b', concat (obsB (list kobs) (list kobs) os)).
+Proof.
+  intros h1 h2 es a b a' b' os H.
+  destruct (product_projects _ _ _ _ _ _ (ka_step h1) (ka_step h2) es a b a' b' os H) as [HA HB].
+  rewrite ka_run_is_runA, ka_run_is_runB, HA, HB. split; reflexivity.
+Qed.
+
+(* every ping of a session that runs beside another one is written at a multiple of ITS OWN K after ITS OWN start, and its
+   death comes 4.5 K after such a ping - for all schedules of both sessions *)
+Theorem C10_neighbour_all_runs : forall h1 h2 es a' b' os x,
+  0 < h1 -> ka_pair_run h1 h2 (ka_init h1, ka_init h2) es = Some ((a', b'), os) ->
+  In x (concat (obsA (list kobs) (list kobs) os)) ->
+  match x with
+  | KPingSent t => exists j, 1 <= j /\ t = 2 * h1 * j
+  | KDead t => exists p j, 1 <= j /\ p = 2 * h1 * j /\ t = p + 9 * h1
+  end.
+Proof.
+  intros h1 h2 es a' b' os x Hh H Hx.
+  destruct (C10_neighbour_sessions_independent _ _ _ _ _ _ _ _ H) as [HA _].
+  exact (C10_all_runs h1 _ _ _ x Hh HA Hx).
+Qed.
